@@ -139,49 +139,75 @@ func init() {
 	reg("C19", "C19.3", "T8", "every dequeued oversized message is sent to every other member; a failed send is counted and does not stop the others", func(o *Ob) {
 		e := o.E
 		fn := o.Fn("(*am/cluster.Channel).handleOverSizedMessages")
+		// the send is either handed to a goroutine per peer or made in line by the loop over the peers
 		var g *ssa.Go
 		for _, in := range AllInstrs(fn) {
 			if x, ok := in.(*ssa.Go); ok {
 				g = x
 			}
 		}
-		o.Require(g != nil, "go", "oversized messages are no longer sent per peer", nil)
-		o.Site(g, "send to "+e.X(fn, g.Call.Args[0]))
-		l := e.LoopOf(g)
-		// the innermost loop containing g ranges over peers()
+		findSend := func(f *ssa.Function, pre string) ssa.CallInstruction {
+			var snd ssa.CallInstruction
+			for _, in := range AllInstrs(f) {
+				if c, ok := in.(*ssa.Call); ok && strings.HasPrefix(e.X(f, c), "dyn(fn="+pre+"recv.sendOversize,") {
+					snd = c
+				}
+			}
+			return snd
+		}
+		var anchor ssa.Instruction // the per-iteration instruction in fn
+		var body *ssa.Function     // the function that holds the send
+		var snd ssa.CallInstruction
+		up := ""
+		if g != nil {
+			anchor = g
+			if mc, ok := g.Call.Value.(*ssa.MakeClosure); ok {
+				body, up = mc.Fn.(*ssa.Function), "^"
+				snd = findSend(body, "^")
+			}
+		} else {
+			body = fn
+			snd = findSend(fn, "")
+			if snd != nil {
+				anchor = snd
+			}
+		}
+		o.Require(anchor != nil && body != nil, "go", "oversized messages are no longer sent to the peers (neither a goroutine per peer nor a send in the loop)", nil)
+		o.Require(snd != nil, "sendOversize", "the per-peer send is gone", nil)
+		o.Site(anchor, "send to the peer of the iteration")
+		// the innermost loop containing the send ranges over peers()
 		var inner *Loop
 		for _, lp := range e.Loops(fn) {
-			if lp.Blocks[g.Block().Index] && (inner == nil || len(lp.Blocks) < len(inner.Blocks)) {
+			if lp.Blocks[anchor.Block().Index] && (inner == nil || len(lp.Blocks) < len(inner.Blocks)) {
 				inner = lp
 			}
 		}
-		_ = l
-		o.Require(inner != nil, "peer-loop", "sends are not in a loop over the peers", g)
+		o.Require(inner != nil, "peer-loop", "sends are not in a loop over the peers", anchor)
 		coll, kind := e.RangeOver(inner)
-		o.Check(coll == "dyn(fn=recv.peers)" && kind == "index", "peer-range", "the message must go to every peer returned by peers(), loop ranges over "+coll, g)
-		o.Check(len(e.EarlyExits(inner)) == 0, "peer-early-exit", "the loop over the peers can stop early", g)
-		o.Check(!loopBackWithout(o, inner, IsInstr(g), nil), "peer-skip", "a peer can be skipped", g)
-		o.Check(e.X(fn, g.Call.Args[0]) == "dyn(fn=recv.peers)[i]", "peer-arg", "each send must target the peer of the iteration", g)
-		lit := g.Call.Value.(*ssa.MakeClosure).Fn.(*ssa.Function)
-		var snd ssa.CallInstruction
-		for _, in := range AllInstrs(lit) {
-			if c, ok := in.(*ssa.Call); ok && strings.HasPrefix(e.X(lit, c), "dyn(fn=^recv.sendOversize,") {
-				snd = c
-			}
+		o.Check(coll == "dyn(fn=recv.peers)" && kind == "index", "peer-range", "the message must go to every peer returned by peers(), loop ranges over "+coll, anchor)
+		o.Check(len(e.EarlyExits(inner)) == 0, "peer-early-exit", "the loop over the peers can stop early (a failed send must not stop the others)", anchor)
+		o.Check(!loopBackWithout(o, inner, IsInstr(anchor), nil), "peer-skip", "a peer can be skipped", anchor)
+		if g != nil {
+			o.Check(e.X(fn, g.Call.Args[0]) == "dyn(fn=recv.peers)[i]", "peer-arg", "each send must target the peer of the iteration", g)
+			o.Check(e.Arg(snd, 0) == "p0" && strings.Contains(e.Arg(snd, 1), "recv:^recv.msgc"), "sendOversize-args", "the message sent must be the one dequeued, to the goroutine's peer", snd)
+			// unconditional
+			o.Check(len((&Walk{Fn: body, Barrier: IsInstr(snd)}).FromEntry().Returns()) == 0, "send-skipped", "the per-peer goroutine can return without sending", snd)
+		} else {
+			o.Check(e.Arg(snd, 0) == "dyn(fn=recv.peers)[i]" && strings.Contains(e.Arg(snd, 1), "recv:recv.msgc"), "sendOversize-args", "the message sent must be the one dequeued, to the peer of the iteration", snd)
 		}
-		o.Require(snd != nil, "sendOversize", "the per-peer goroutine no longer sends", nil)
-		o.Check(e.Arg(snd, 0) == "p0" && strings.Contains(e.Arg(snd, 1), "recv:^recv.msgc"), "sendOversize-args", "the message sent must be the one dequeued, to the goroutine's peer", snd)
-		// unconditional
-		o.Check(len((&Walk{Fn: lit, Barrier: IsInstr(snd)}).FromEntry().Returns()) == 0, "send-skipped", "the per-peer goroutine can return without sending", snd)
-		fail := L("("+e.X(lit, snd.(*ssa.Call))+" == nil)", false)
+		fail := L("("+e.X(body, snd.(*ssa.Call))+" == nil)", false)
 		var finc ssa.CallInstruction
-		for _, c := range e.Calls(lit, "invoke:prometheus.Counter.Inc") {
-			if e.Arg(c, 0) == "^recv.oversizeGossipMessageFailureTotal" {
+		for _, c := range e.Calls(body, "invoke:prometheus.Counter.Inc") {
+			if e.Arg(c, 0) == up+"recv.oversizeGossipMessageFailureTotal" {
 				finc = c
 			}
 		}
 		if o.Check(finc != nil, "failure-counter", "a failed reliable send is no longer counted", nil) {
-			o.Forced(lit, "failure-forced", "a failed reliable send must be counted", IsInstr(finc), fail)
+			if g != nil {
+				o.Forced(body, "failure-forced", "a failed reliable send must be counted", IsInstr(finc), fail)
+			} else {
+				o.ForcedAfter(snd, "failure-forced", "a failed reliable send must be counted", IsInstr(finc), fail)
+			}
 		}
 		// the dequeue loop only ends on stop
 		for _, in := range AllInstrs(fn) {
